@@ -12,7 +12,7 @@ func KitchenSinks() []*Program {
 		o.Files = 3
 		o.Structs = 7
 		o.FieldsMax = 14
-		o.UnionDefault = true
+		o.UnionDefault = false // a union member with a default is set in every fresh object: such unions cannot be re-written after Read
 		o.HexIDs = true
 		o.ExpDoubles = true
 		o.NameStress = i % 3
